@@ -174,6 +174,33 @@ def c04(res, c):
     res.count("ciphertext entries compared", len(ea))
 
 
+def c04_repeated_setups(res, rng, rounds):
+    """the same (key, database) encrypted again and again by ONE scheme object: no ciphertext entry may ever repeat
+    (a randomness source that cycles shows up as soon as the cycle closes)"""
+    name = "PiBas"
+    cfg = se.default_cfg(name)
+    db = {}
+    used = set()
+    for k in range(8):
+        w = se._keyword(rng, 20, db)
+        db[w] = [se._ident(rng, 8, used) for _ in range(8)]          # 64 postings
+    c = dict(name=name, cfg=cfg, db=db, present=list(db), absent=[], profile=f"{rounds} setups of one 64-posting database")
+    ld = se.loader(name)
+    scheme = ld.SSEScheme(copy.deepcopy(cfg))
+    key = scheme.KeyGen()
+    seen = {}
+    for r in range(rounds):
+        edb = scheme.EDBSetup(key, db)
+        for label, v in edb.D.items():
+            if v in seen:
+                sk.violation(res, f"{name}: encrypting the same database again under the same key reproduces a ciphertext entry",
+                             f"{name}: setup #{r + 1} stores under label {label.hex()[:16]} the ciphertext that setup #{seen[v] + 1} stored "
+                             f"(64 postings per setup, {r * 64} encryptions apart at most)", dict(sk.show_case(c), setups=r + 1))
+                return
+            seen[v] = r
+    res.count("repeated setups", rounds)
+
+
 # ------------------------------------------------------------------------------------------- C05
 def shape(name, edb):
     """per container: entry count, multiset of key lengths, multiset of value lengths"""
